@@ -80,7 +80,7 @@ CHECKS = {
             "(errno before the effect, short write, failing close), every computation step, every operation boundary for user exceptions, sampled KeyboardInterrupts at traced lines, plus a second fault during the re-run). "
             "After each faulted run an independent archive reader decides: session raised -> target path absent / logically identical to its previous complete content; fault absorbed -> equals the fault-free result; "
             "then one clean re-run on the same path must succeed and reproduce the fault-free result (bounded liveness). Enumeration per workload is complete in the thorough tier; workloads themselves are sampled. "
-            "Workloads also include EKO.deepcopy and ekobox.utils.ekos_product (in place / to a new path), and 30% run with the temp area 'on another file system' (cross-directory renames fail with EXDEV). "
+            "Workloads also include EKO.deepcopy and ekobox.utils.ekos_product (in place / to a new path), and 30% run with the temp area 'on another file system' (cross-directory renames fail with EXDEV); 30% of the edit / builder sessions end their block with an explicit eko.dump() (a failure after a dump that RETURNED may leave the former or the dumped = final content, a failure inside the dump only the former). "
             "Further fault modes: hard kills (process death at a seam event: no handler or finalizer of the dead session touches the disk again; whatever is on disk, e.g. a partial <archive>.tmp, is what the next process finds), a SECOND fault on events that only exist because of the first one (error handling, fallbacks, clean-up code), faults inside pool workers for real-physics workloads on 2-3 cores, garbage collection at the end of every simulated session (finalizers run at a defined instant), and detection of state a failed session leaves behind in the process (a later run diverging from the reference trace is followed by a fault-free run, which must still succeed). "
             "A second stage runs multi-session store histories (create / puts / metadata, parts, recipe edits / close / reopen ...) twice - fault-free to record the trace, then with 1-3 faults drawn from it: an operation failing through an injected fault kills its session, the user restarts, and at every such point the archive must hold exactly the last committed content (crash recovery across sessions, checked with the persistent-map model and the independent reader)."
         ),
@@ -119,7 +119,7 @@ CHECKS = {
         technique=TECH + " (fault-free configuration): seeded sequences of store attempts and harmless operations on read-only and closed EKOs, archive sha256 compared before/after, seam trace scanned for mutating events on the archive",
         text=(
             "Seeded histories put an EKO into read-only, closed-after-write, closed-after-read or mixed state and then issue store attempts (eko[ep]=, operators[]=, parts[]=, parts_matching[]=, load_recipes, recipes[]=, xgrid=, update(), dump()) interleaved with reads, unloads, iteration, approx, dump to another path and repeated close(); "
-            "every store attempt must raise - also for headers the inventories already know and for the same refused store repeated - and after every operation and at session end the archive's sha256 and size must be unchanged, also with junk left next to the archive by hard-killed processes (newer complete-looking / truncated <archive>.tmp, .bak) and with writes through the metadata container below the EKO API."
+            "every store attempt must raise - also for headers the inventories already know and for the same refused store repeated - and after every operation and at session end the archive's sha256 and size must be unchanged, also with junk left next to the archive by hard-killed processes (newer complete-looking / truncated <archive>.tmp, .bak) and with writes through the metadata container below the EKO API. In a third of the closed-after-write histories the used Builder is asked to build() again first (a retry in user code; whether that raises is not demanded): the CLOSED handle must go on refusing every store and the archive must stay byte-identical."
         ),
         note="Only 'raises' is demanded for store attempts, not the exception type; reads/unloads/repeated close need not raise, for them only 'archive bytes unchanged' is demanded.",
         design="DESIGN.md section 3",
